@@ -1,4 +1,5 @@
 import PttVerif.Model.C06
+import PttVerif.Props.C13
 /-
 C06 — specification by linear scan, and the lemmas behind Props/C06.lean.
 -/
@@ -1633,5 +1634,391 @@ theorem walk_asc_unparsable_lookahead (idx : Index) (n : Nat) (hlen : (1 : Int) 
   rw [this]
   have hb : (ent idx (n : Int)).time? = none := hbad
   rw [hb]
+
+section Cursor
+open PttVerif.C13
+
+/-! ### the `bbs` cursor text of an index entry designates that entry (names of the article-id domain) -/
+
+theorem splitAt64_no64 : ∀ (l : List Nat), (∀ c ∈ l, c ≠ 64) → splitAt64 l = [l] := by
+  intro l
+  induction l with
+  | nil => intro _; rfl
+  | cons c cs ih =>
+    intro h
+    have hc : c ≠ 64 := h c (by simp)
+    unfold splitAt64
+    rw [ih (fun x hx => h x (by simp [hx]))]
+    simp [hc]
+
+theorem splitAt64_one : ∀ (a b : List Nat), (∀ c ∈ a, c ≠ 64) → (∀ c ∈ b, c ≠ 64) →
+    splitAt64 (a ++ [64] ++ b) = [a, b] := by
+  intro a
+  induction a with
+  | nil =>
+    intro b _ hb
+    simp only [List.nil_append, List.cons_append]
+    unfold splitAt64
+    rw [splitAt64_no64 b hb]; simp
+  | cons c cs ih =>
+    intro b ha hb
+    have hc : c ≠ 64 := ha c (by simp)
+    simp only [List.cons_append]
+    unfold splitAt64
+    rw [ih b (fun x hx => ha x (by simp [hx])) hb]; simp [hc]
+
+theorem toAidcAux_ne64 (k : Nat) : ∀ a acc, (∀ c ∈ acc, c ≠ 64) → ∀ c ∈ toAidcAux k a acc, c ≠ 64 := by
+  induction k with
+  | zero => intro a acc h; simpa [toAidcAux] using h
+  | succ k ih =>
+    intro a acc h
+    rw [toAidcAux]
+    apply ih
+    intro c hc
+    simp only [List.mem_cons] at hc
+    rcases hc with hc | hc
+    · subst hc; exact (table_facts' (a % 64) (Nat.mod_lt _ (by decide))).2.1
+    · exact h c hc
+
+theorem toArticleID_ne64 (f : List Nat) : ∀ c ∈ toArticleID f, c ≠ 64 := by
+  intro c hc
+  unfold toArticleID cstr at hc
+  exact toAidcAux_ne64 8 _ [] (by simp) c ((List.takeWhile_sublist _).subset hc)
+
+theorem fnCreateTime_render (isM : Bool) (t p : Nat) (h : InDomain t p) :
+    fnCreateTime (render isM t p) = some (t : Int) := by
+  obtain ⟨h1, h2, h3⟩ := h
+  obtain ⟨d0, d1, d2, d3, d4, d5, d6, d7, d8, d9, hd⟩ := length10 _ (digitsFixed_length 10 t)
+  have hat : atoi [d0, d1, d2, d3, d4, d5, d6, d7, d8, d9] = some (Int.ofNat t) := by
+    rw [← hd, atoi_digitsFixed 9 t]
+    congr 2; exact Nat.mod_eq_of_lt (by omega)
+  rw [Props.render_eq]
+  unfold body
+  rw [hd]
+  unfold fnCreateTime
+  have ht32 := toInt32_ofNat t (by omega)
+  cases isM <;> simp [hat, ht32]
+
+theorem fnCreateTime_deleted (isM : Bool) (t p : Nat) (h : InDomain t p) :
+    fnCreateTime (Props.markDeleted (render isM t p)) = some (t : Int) := by
+  obtain ⟨h1, h2, h3⟩ := h
+  obtain ⟨d0, d1, d2, d3, d4, d5, d6, d7, d8, d9, hd⟩ := length10 _ (digitsFixed_length 10 t)
+  have hat : atoi [d0, d1, d2, d3, d4, d5, d6, d7, d8, d9] = some (Int.ofNat t) := by
+    rw [← hd, atoi_digitsFixed 9 t]
+    congr 2; exact Nat.mod_eq_of_lt (by omega)
+  rw [Props.render_eq]
+  unfold body Props.markDeleted
+  rw [hd]
+  unfold fnCreateTime
+  have ht32 := toInt32_ofNat t (by omega)
+  cases isM <;> simp [hat, ht32]
+
+theorem key_render (isM : Bool) (t p : Nat) :
+    (absEntry (render isM t p)).key = (absEntry (render true t p)).key := by
+  unfold absEntry
+  rw [Props.render_eq, Props.render_eq]
+  unfold body
+  cases isM <;> simp
+
+theorem key_deleted (isM : Bool) (t p : Nat) :
+    (absEntry (Props.markDeleted (render isM t p))).key = (absEntry (render true t p)).key := by
+  unfold absEntry Props.markDeleted
+  rw [Props.render_eq, Props.render_eq]
+  unfold body
+  cases isM <;> simp
+
+theorem atoi64_digitsFixed10 (t : Nat) (h1 : 10 ^ 9 ≤ t) (h2 : t < 2 ^ 31) :
+    atoi64 (digitsFixed 10 t) = some (t : Int) := by
+  obtain ⟨d0, d1, d2, d3, d4, d5, d6, d7, d8, d9, hd⟩ := length10 _ (digitsFixed_length 10 t)
+  have hdig : isDigit d0 = true := digitsFixed_isDigit 10 t d0 (by rw [hd]; simp)
+  have hdv : decVal (digitsFixed 10 t) 0 = some t := by
+    rw [decVal_digitsFixed 10 t 0]
+    congr 1
+    have : t % 10 ^ 10 = t := Nat.mod_eq_of_lt (by omega)
+    omega
+  have h43 : d0 ≠ 43 := by intro e; subst e; simp [isDigit] at hdig
+  have h45 : d0 ≠ 45 := by intro e; subst e; simp [isDigit] at hdig
+  rw [hd] at hdv ⊢
+  unfold atoi64
+  split
+  · rename_i heq; cases heq; exact absurd rfl h43
+  · rename_i heq; cases heq; exact absurd rfl h45
+  · unfold atoi64Digits
+    simp only [hdv, List.isEmpty_cons, Bool.false_eq_true, if_false]
+    have : t ≤ 9223372036854775807 := by omega
+    simp [this]
+
+theorem intToDec_domain (t : Nat) (h1 : 10 ^ 9 ≤ t) (h2 : t < 2 ^ 31) : intToDec (t : Int) = digitsFixed 10 t := by
+  unfold intToDec
+  have : ¬ ((t : Int) < 0) := by omega
+  simp only [this, if_false, Int.natAbs_natCast]
+  exact natToDec_eq_digitsFixed 9 t (by omega) (by omega)
+
+/-- core of the round trip: a name with creation time `t` whose article id is that of `render isM' t p`. -/
+theorem cursor_core (t p : Nat) (nm : Name) (isM' : Bool) (hd : InDomain t p) (hct : fnCreateTime nm = some (t : Int))
+    (haid : toArticleID nm = toArticleID (render isM' t p)) :
+    deserializeIdx (serializeIdx nm) = .ok ((t : Int), render isM' t p) := by
+  obtain ⟨h1, h2, h3⟩ := hd
+  unfold serializeIdx
+  rw [hct, haid]
+  simp only [Option.getD_some]
+  rw [intToDec_domain t h1 h2]
+  unfold deserializeIdx
+  rw [splitAt64_one _ _ (fun c hc => by
+      have := digitsFixed_isDigit 10 t c hc
+      intro e; subst e; simp [isDigit] at this) (toArticleID_ne64 _)]
+  simp only
+  rw [atoi64_digitsFixed10 t h1 h2]
+  simp only
+  rw [Props.articleId_roundtrip isM' t p ⟨h1, h2, h3⟩]
+  simp only [liftFault]
+  rw [fnCreateTime_render isM' t p ⟨h1, h2, h3⟩, toInt32_ofNat t (by omega)]
+  simp
+
+theorem absEntry_time (nm : Name) : (absEntry nm).time? = fnCreateTime nm := rfl
+
+/-- the next-page cursor text made from a live index entry of the article-id domain deserialises to that
+entry's creation time and to a file name with that entry's key. -/
+theorem cursor_roundtrip_live (isM : Bool) (t p : Nat) (hd : InDomain t p) :
+    ∃ fnm, deserializeIdx (serializeIdx (render isM t p)) = .ok ((t : Int), fnm) ∧
+      (absEntry (render isM t p)).time? = some (t : Int) ∧
+      (absEntry fnm).key = (absEntry (render isM t p)).key := by
+  refine ⟨render isM t p, cursor_core t p _ isM hd (fnCreateTime_render isM t p hd) (Eq.refl _), ?_, Eq.refl _⟩
+  rw [absEntry_time]; exact fnCreateTime_render isM t p hd
+
+/-- the same for a delete-marked entry (repair 7c79b33): the cursor designates the marked entry itself. -/
+theorem cursor_roundtrip_deleted (isM : Bool) (t p : Nat) (hd : InDomain t p) :
+    ∃ fnm, deserializeIdx (serializeIdx (Props.markDeleted (render isM t p))) = .ok ((t : Int), fnm) ∧
+      (absEntry (Props.markDeleted (render isM t p))).time? = some (t : Int) ∧
+      (absEntry fnm).key = (absEntry (Props.markDeleted (render isM t p))).key := by
+  refine ⟨render true t p, cursor_core t p _ true hd (fnCreateTime_deleted isM t p hd)
+    (Props.toArticleID_deleted isM t p), ?_, (key_deleted isM t p).symm⟩
+  rw [absEntry_time]; exact fnCreateTime_deleted isM t p hd
+
+
+theorem getRecordsLoop_mem (idx : Index) (isDesc : Bool) : ∀ (n : Nat) (i : Int) (x : Int × Entry),
+    x ∈ getRecordsLoop idx isDesc n i → 1 ≤ x.1 ∧ x.1 ≤ idx.length ∧ x.2 = ent idx (x.1 - 1) := by
+  intro n
+  induction n with
+  | zero => intro i x h; simp [getRecordsLoop] at h
+  | succ n ih =>
+    intro i x h
+    unfold getRecordsLoop at h
+    by_cases hc : i = 0 ∨ i > idx.length
+    · rw [if_pos hc] at h; simp at h
+    · rw [if_neg hc] at h
+      by_cases hneg : i - 1 < 0
+      · simp [rd, hneg] at h
+      · rw [rd_ok (by omega) (by omega)] at h
+        simp only [List.mem_cons] at h
+        rcases h with h | h
+        · subst h; exact ⟨by omega, by omega, rfl⟩
+        · exact ih _ x h
+
+theorem pttLoad_next {idx : Index} {total start : Int} {n : Nat} {isDesc : Bool} {p : Page Entry}
+    (h : pttLoad idx total start n isDesc = .ok p) {pos : Int} {e : Entry} (hn : p.next = some (pos, e)) :
+    1 ≤ pos ∧ pos ≤ idx.length ∧ e = ent idx (pos - 1) := by
+  unfold pttLoad pttLoadWith at h
+  by_cases ht : total = 0
+  · rw [if_pos ht] at h; cases h; cases hn
+  · rw [if_neg ht] at h
+    simp only at h
+    generalize hs : (if start = 0 ∧ isDesc = true then total else start) = s' at h
+    unfold getRecords at h
+    by_cases h1 : s' < 1
+    · rw [if_pos h1] at h; cases h
+    · rw [if_neg h1, if_neg (by omega)] at h
+      simp only at h
+      split at h
+      · cases h
+        simp only at hn
+        have := List.mem_of_getElem? hn
+        exact getRecordsLoop_mem idx isDesc _ _ _ this
+      · cases h; cases hn
+
+
+/-- the page `bbs.LoadGeneralArticles` builds from a ptt page. -/
+def toBbsPage (names : List Name) (p : Page Entry) : BbsPage :=
+  ⟨p.start, p.isNewest, p.items.map (·.1),
+    match p.next with
+    | none => []
+    | some (pos, _) => serializeIdx (names.getD (pos - 1).toNat [])⟩
+
+theorem getBTotal_nonzero (names : List Name) (c : Int) (hc : c ≠ 0) : getBTotalWithRetry names c = (.ok c, c) := by
+  unfold getBTotalWithRetry; simp [hc]
+
+theorem bbsLoad_first (names : List Name) (c : Int) (hc : c ≠ 0) (n : Nat) (hn : 1 ≤ n) (isDesc : Bool) :
+    bbsLoad names c [] n isDesc =
+      match pttLoad (names.map absEntry) c (if isDesc then 0 else 1) n isDesc with
+      | .error e => (.error e, c)
+      | .ok p => (.ok (toBbsPage names p), c) := by
+  unfold bbsLoad
+  rw [if_neg (by omega)]
+  simp only [List.isEmpty_nil, if_true, getBTotal_nonzero names c hc, Int.toNat_natCast]
+  cases pttLoad (names.map absEntry) c (if isDesc then 0 else 1) n isDesc with
+  | error e => rfl
+  | ok p => rfl
+
+theorem bbsLoad_cursor (names : List Name) (c : Int) (hc : c ≠ 0) (n : Nat) (hn : 1 ≤ n) (isDesc : Bool)
+    (cursor : List Nat) (hne : cursor ≠ []) (ct : Int) (fnm : Name) (hd : deserializeIdx cursor = .ok (ct, fnm)) :
+    bbsLoad names c cursor n isDesc =
+      match pttFindStart (names.map absEntry) c ct (some (absEntry fnm).key) isDesc with
+      | .error e => (.error e, c)
+      | .ok start =>
+        match pttLoad (names.map absEntry) c start n isDesc with
+        | .error e => (.error e, c)
+        | .ok p => (.ok (toBbsPage names p), c) := by
+  unfold bbsLoad
+  rw [if_neg (by omega)]
+  have he : cursor.isEmpty = false := by cases cursor <;> simp_all
+  simp only [he, Bool.false_eq_true, if_false, hd, getBTotal_nonzero names c hc, Int.toNat_natCast]
+  cases pttFindStart (names.map absEntry) c ct (some (absEntry fnm).key) isDesc with
+  | error e => rfl
+  | ok start =>
+    simp only
+    cases pttLoad (names.map absEntry) c start n isDesc with
+    | error e => rfl
+    | ok p => rfl
+
+
+/-- every name of the board file is a name of the article-id domain (live or delete-marked) or has no
+parsable creation time. -/
+def NamesOK (names : List Name) : Prop :=
+  ∀ nm ∈ names, fnCreateTime nm = none ∨
+    ∃ isM t p, InDomain t p ∧ (nm = render isM t p ∨ nm = Props.markDeleted (render isM t p))
+
+theorem serializeIdx_ne_nil (nm : Name) : serializeIdx nm ≠ [] := by
+  unfold serializeIdx; simp
+
+theorem cursor_of_name {nm : Name}
+    (h : ∃ isM t p, InDomain t p ∧ (nm = render isM t p ∨ nm = Props.markDeleted (render isM t p))) :
+    ∃ (t : Int) (fnm : Name), deserializeIdx (serializeIdx nm) = .ok (t, fnm) ∧
+      (absEntry nm).time? = some t ∧ (absEntry fnm).key = (absEntry nm).key := by
+  obtain ⟨isM, t, p, hd, h | h⟩ := h
+  · subst h
+    obtain ⟨fnm, h1, h2, h3⟩ := cursor_roundtrip_live isM t p hd
+    exact ⟨t, fnm, h1, h2, h3⟩
+  · subst h
+    obtain ⟨fnm, h1, h2, h3⟩ := cursor_roundtrip_deleted isM t p hd
+    exact ⟨t, fnm, h1, h2, h3⟩
+
+theorem ent_map_absEntry (names : List Name) (i : Int) (h0 : 0 ≤ i) (h1 : i < names.length) :
+    ent (names.map absEntry) i = absEntry (names.getD i.toNat []) ∧ names.getD i.toNat [] ∈ names := by
+  have hlt : i.toNat < names.length := by omega
+  refine ⟨?_, ?_⟩
+  · rw [ent_eq_getElem h0 (by simpa using hlt)]
+    simp [List.getD, List.getElem?_eq_getElem hlt]
+  · simp [List.getD, List.getElem?_eq_getElem hlt]
+
+/-- the `bbs` client loop follows the abstract walk page by page: whenever the abstract walk over the
+entries `(time?, key)` of the names succeeds, the `bbs.LoadGeneralArticles` loop over the cursor texts ends
+normally with the same pages. -/
+theorem bbsWalk_sim (names : List Name) (hok : NamesOK names) (n : Nat) (hn : 1 ≤ n) (isDesc : Bool)
+    (hlen : (names.length : Int) ≠ 0) :
+    ∀ (fuel : Nat) (cursor : List Nat) (start : Int) (pages : List (List Int)),
+      ((cursor = [] ∧ start = (if isDesc then 0 else 1)) ∨
+        (cursor ≠ [] ∧ ∃ ct fnm, deserializeIdx cursor = .ok (ct, fnm) ∧
+          pttFindStart (names.map absEntry) names.length ct (some (absEntry fnm).key) isDesc = .ok start)) →
+      walkFrom (names.map absEntry) names.length n isDesc fuel start = .ok pages →
+      ∃ bp, bbsWalk names n isDesc fuel names.length cursor = (bp, "end") ∧ bp.map (·.items) = pages := by
+  intro fuel
+  induction fuel with
+  | zero => intro cursor start pages _ hw; simp [walkFrom] at hw
+  | succ f ih =>
+    intro cursor start pages hcur hw
+    unfold walkFrom at hw
+    cases hp : pttLoad (names.map absEntry) names.length start n isDesc with
+    | error e => rw [hp] at hw; cases hw
+    | ok p =>
+      rw [hp] at hw
+      simp only at hw
+      have hload : bbsLoad names names.length cursor n isDesc = (.ok (toBbsPage names p), (names.length : Int)) := by
+        rcases hcur with ⟨h1, h2⟩ | ⟨h1, ct, fnm, h2, h3⟩
+        · subst h1 h2
+          rw [bbsLoad_first names _ hlen n hn isDesc, hp]
+        · rw [bbsLoad_cursor names _ hlen n hn isDesc cursor h1 ct fnm h2, h3]
+          simp only [hp]
+      unfold bbsWalk
+      rw [hload]
+      simp only
+      cases hnext : p.next with
+      | none =>
+        rw [hnext] at hw
+        simp only at hw
+        have hpages : pages = [p.items.map (·.1)] := by cases hw; rfl
+        refine ⟨[toBbsPage names p], ?_, ?_⟩
+        · simp [toBbsPage, hnext]
+        · simp [toBbsPage, hpages]
+      | some x =>
+        obtain ⟨pos, e⟩ := x
+        rw [hnext] at hw
+        simp only at hw
+        obtain ⟨hp1, hp2, he⟩ := pttLoad_next hp hnext
+        have hp2' : pos ≤ names.length := by simpa using hp2
+        obtain ⟨hent, hmem⟩ := ent_map_absEntry names (pos - 1) (by omega) (by omega)
+        rw [hent] at he
+        cases ht : e.time? with
+        | none => rw [ht] at hw; cases hw
+        | some t =>
+          rw [ht] at hw
+          simp only at hw
+          cases hfs : pttFindStart (names.map absEntry) (names.length : Int) t (some e.key) isDesc with
+          | error err => rw [hfs] at hw; cases hw
+          | ok s =>
+            rw [hfs] at hw
+            simp only at hw
+            cases hrest : walkFrom (names.map absEntry) (names.length : Int) n isDesc f s with
+            | error err => rw [hrest] at hw; cases hw
+            | ok rest =>
+              rw [hrest] at hw
+              have hpages : pages = p.items.map (·.1) :: rest := by cases hw; rfl
+              -- the look-ahead name is in the domain, so its cursor text round-trips
+              have hdom := hok _ hmem
+              have htime : fnCreateTime (names.getD (pos - 1).toNat []) = some t := by
+                have : (absEntry (names.getD (pos - 1).toNat [])).time? = some t := by rw [← he]; exact ht
+                exact this
+              rcases hdom with hbad | hdom
+              · rw [hbad] at htime; cases htime
+              · obtain ⟨t', fnm, hd1, hd2, hd3⟩ := cursor_of_name hdom
+                have htt : t' = t := by
+                  have : (absEntry (names.getD (pos - 1).toNat [])).time? = some t := htime
+                  rw [hd2] at this; cases this; rfl
+                subst htt
+                have hkey : (absEntry fnm).key = e.key := by rw [hd3, he]
+                obtain ⟨bp, hb1, hb2⟩ := ih (serializeIdx (names.getD (pos - 1).toNat [])) s rest
+                  (Or.inr ⟨serializeIdx_ne_nil _, t', fnm, hd1, by rw [hkey]; exact hfs⟩) hrest
+                refine ⟨toBbsPage names p :: bp, ?_, ?_⟩
+                · have hne : (toBbsPage names p).nextIdx = serializeIdx (names.getD (pos - 1).toNat []) := by
+                    simp [toBbsPage, hnext]
+                  have hemp : (toBbsPage names p).nextIdx.isEmpty = false := by
+                    rw [hne]; cases hs : serializeIdx (names.getD (pos - 1).toNat []) with
+                    | nil => exact absurd hs (serializeIdx_ne_nil _)
+                    | cons _ _ => rfl
+                  rw [hemp, hne, hb1]
+                  simp
+                · simp [hpages, hb2, toBbsPage]
+
+
+/-- the `bbs.LoadGeneralArticles` client loop, started with the empty cursor and a fresh cached total, yields
+the pages of the abstract walk whenever that walk succeeds (any page budget `fuel`). -/
+theorem bbsWalk_eq_walkFrom (names : List Name) (hok : NamesOK names) (n : Nat) (hn : 1 ≤ n) (isDesc : Bool)
+    (fuel : Nat) (pages : List (List Int))
+    (hw : walkFrom (names.map absEntry) names.length n isDesc fuel (if isDesc then 0 else 1) = .ok pages) :
+    ∃ bp, bbsWalk names n isDesc fuel names.length [] = (bp, "end") ∧ bp.map (·.items) = pages := by
+  by_cases hlen : (names.length : Int) = 0
+  · have : names = [] := List.eq_nil_of_length_eq_zero (by omega)
+    subst this
+    cases fuel with
+    | zero => simp [walkFrom] at hw
+    | succ f =>
+      simp [walkFrom, pttLoad, pttLoadWith] at hw
+      subst hw
+      refine ⟨[⟨0, true, [], []⟩], ?_, by simp⟩
+      have h1 : ¬ ((n : Int) < 1) := by omega
+      simp [bbsWalk, bbsLoad, h1, getBTotalWithRetry, pttLoad, pttLoadWith]
+  · exact bbsWalk_sim names hok n hn isDesc hlen fuel [] _ pages (Or.inl ⟨rfl, rfl⟩) hw
+
+
+end Cursor
 
 end PttVerif.C06
